@@ -28,6 +28,23 @@ Spec == Init /\ [][Next]_<<g, k>>
 Lines(m) == LET keep == {i \in 1..Len(m) : ~(m[i] = 13 /\ i < Len(m) /\ m[i + 1] = 10)}
                 idx == SetToSortSeq(keep, LAMBDA a, b : a < b)
             IN [j \in 1..Len(idx) |-> IF m[idx[j]] = 13 THEN 10 ELSE m[idx[j]]]
+\* what the command loop answers to the bytes that follow the terminator, when they are lines of the small known vocabulary
+\* NOOP (250), QUIT (221, ends the session), anything else made of letters (502); <<-1>> = not predicted here
+Upper(b) == IF b \in 97..122 THEN b - 32 ELSE b
+CmdLines(rem) == LET lfs == SetToSortSeq({i \in 1..Len(rem) : rem[i] = 10}, LAMBDA a, b : a < b)
+                 IN [q \in 1..Len(lfs) |-> LET lo == IF q = 1 THEN 1 ELSE lfs[q - 1] + 1
+                                               hi == lfs[q] - 1
+                                               raw == SubSeq(rem, lo, hi)
+                                               t == IF Len(raw) > 0 /\ raw[Len(raw)] = 13 THEN SubSeq(raw, 1, Len(raw) - 1) ELSE raw
+                                           IN [i \in 1..Len(t) |-> Upper(t[i])]]
+Simple(l) == Len(l) > 0 /\ \A i \in 1..Len(l) : l[i] \in 65..90
+ReplyOf(l) == IF l = <<78, 79, 79, 80>> THEN 250 ELSE IF l = <<81, 85, 73, 84>> THEN 221 ELSE 502
+ExpectedReplies(rem) ==
+  LET ls == CmdLines(rem)
+      quits == {q \in 1..Len(ls) : ls[q] = <<81, 85, 73, 84>>}
+      upto == IF quits = {} THEN Len(ls) ELSE CHOOSE q \in quits : \A j \in quits : q <= j
+  IN IF Len(ls) = 0 \/ (Len(rem) > 0 /\ rem[Len(rem)] # 10) \/ \E q \in 1..Len(ls) : ~Simple(ls[q]) THEN <<-1>>
+     ELSE [q \in 1..upto |-> ReplyOf(ls[q])]
 \* sessions under a size limit (lim > 0; the exact boundary belongs to C07 and is left open within two bytes): a message over
 \* the limit is refused as a whole after its terminator (res = "big") and nothing is queued - in particular no prefix of it
 StoredSize(lines) == LET n == Len(lines) IN IF n = 0 THEN 0 ELSE n + Len(Flat(lines))
@@ -39,9 +56,12 @@ Verdict(r) ==
                    ELSE IF sz < r.lim - 2 THEN "SmallMessageRefusedForSize" ELSE "")
            ELSE IF r.lim > 0 /\ r.res = "end" /\ ref.st = "end" /\ sz > r.lim + 2 THEN "MessageOverTheLimitAccepted"
            ELSE DecVerdict(r.s, r.res, r.msg, -1, r.q = 1)
-  IN IF v # "" THEN v
+  IN IF r.res = "pre" THEN "CommandNotRecognisedWhenSplitAcrossReads"
+     ELSE IF v # "" THEN v
      ELSE IF r.orig # <<-1>> /\ r.msg # Lines(r.orig) THEN "RoundTripChangedMessage"     \* decode(encode(m)) = m, line by line
      ELSE IF ref.st = "end" /\ r.nlf # -1 /\ r.nlf # NumLF(SubSeq(r.s, ref.used + 1, Len(r.s))) THEN "BytesAfterTerminatorNotCommands"
+     ELSE IF ref.st = "end" /\ r.aft # <<-1>> /\ ExpectedReplies(SubSeq(r.s, ref.used + 1, Len(r.s))) # <<-1>>
+             /\ r.aft # ExpectedReplies(SubSeq(r.s, ref.used + 1, Len(r.s))) THEN "BytesAfterTerminatorNotTheNextCommands"
      ELSE ""
 CheckChunk(c) ==
   LET lo == (c - 1) * Chunk + 1
